@@ -114,14 +114,18 @@ fn parse_hex(s: &str) -> u128 {
 
 fn execute(c: &Case, obs: &mut Vec<String>) {
     let mut ty = String::new();
-    let mut vectors: Vec<Vec<u128>> = Vec::new();
+    // (type, bit patterns, observed?) in the order of the case; `W <type> …` vectors are sorted too, in place in the
+    // sequence, but not observed (family sort-history: sorts of OTHER element types on the same thread before and
+    // between the observed ones - whatever the library keeps between calls must not leak into a later sort)
+    let mut vectors: Vec<(String, Vec<u128>, bool)> = Vec::new();
     let mut tail: Vec<u128> = Vec::new();
     let mut has_tail = false;
     for l in &c.ops {
         let t: Vec<&str> = l.split_whitespace().collect();
         match t[0] {
             "T" => ty = t[1].to_string(),
-            "v" => vectors.push(t[1..].iter().map(|x| parse_hex(x)).collect()),
+            "v" => vectors.push((ty.clone(), t[1..].iter().map(|x| parse_hex(x)).collect(), true)),
+            "W" => vectors.push((t[1].to_string(), t[2..].iter().map(|x| parse_hex(x)).collect(), false)),
             "e" => {
                 has_tail = true;
                 tail.push(parse_hex(t[1]));
@@ -130,22 +134,31 @@ fn execute(c: &Case, obs: &mut Vec<String>) {
         }
     }
     if has_tail {
-        vectors.push(tail);
+        vectors.push((ty.clone(), tail, true));
     }
-    let m = mask(&ty);
-    for (i, bits) in vectors.iter().enumerate() {
-        // patterns that are not values of the type cannot be constructed: out of domain, no observation
-        if bits.iter().any(|b| *b > m || (ty == "bool" && *b > 1)) {
-            obs.push(format!("D {i} invalid"));
+    let mut i = 0;
+    for (vty, bits, observed) in vectors.iter() {
+        let m = mask(vty);
+        if !observed {
+            if !bits.iter().any(|b| *b > m || (vty == "bool" && *b > 1)) {
+                let _ = run_real(vty, bits);
+            }
             continue;
         }
-        let (out, std, peq) = run_real(&ty, bits);
+        // patterns that are not values of the type cannot be constructed: out of domain, no observation
+        if bits.iter().any(|b| *b > m || (vty == "bool" && *b > 1)) {
+            obs.push(format!("D {i} invalid"));
+            i += 1;
+            continue;
+        }
+        let (out, std, peq) = run_real(vty, bits);
         obs.push(if out.is_empty() { format!("D {i} out") } else { format!("D {i} out {}", hexs(&out)) });
         let s = if out == std { 1 } else { 0 };
         match peq {
             Some(p) => obs.push(format!("D {i} std={s} partial={}", if p { 1 } else { 0 })),
             None => obs.push(format!("D {i} std={s}")),
         }
+        i += 1;
     }
 }
 
@@ -505,6 +518,31 @@ fn generate(rng: &mut Rng, tier: Tier, cases: &mut Vec<Case>) {
             };
             single(fam, ty, &v, cases);
         }
+    }
+    // sort-history: on ONE thread (every case has a thread of its own), sorts of other element types - wider and
+    // narrower ones, empty and non-empty vectors - run before and between the observed sorts (`W` lines); each
+    // observed sort must come out as if it were the first call (seeded change C17-r4m2: a thread-local histogram
+    // table that is cleared lazily and under-records after a call on a narrower type; needs wide, narrow, wide)
+    let nhist = if quick { 600 } else { 12000 };
+    for i in 0..nhist {
+        let ty = TYPES[i % TYPES.len()];
+        let mut c = Case::new("sort-history");
+        c.op(format!("T {ty}"));
+        let steps = 2 + rng.below(4);
+        for _ in 0..steps {
+            for _ in 0..rng.below(3) {
+                let wty = *rng.pick(&TYPES);
+                let wlen = *rng.pick(&[0usize, 1, 4, 9, 40]);
+                let mode = rng.below(6);
+                let w = random_vector(wty, rng, wlen, mode);
+                c.op(format!("W {wty} {}", hexs(&w)).trim_end().to_string());
+            }
+            let len = *rng.pick(&[1usize, 2, 4, 7, 30, 120]);
+            let mode = rng.below(6);
+            let v = random_vector(ty, rng, len, mode);
+            c.op(vline(&v));
+        }
+        cases.push(c);
     }
 }
 
